@@ -6,28 +6,19 @@
     ([z2sl]: all towers of height 0, key_index = the pairs themselves), calls the
     skip-list operation of Model/SkipList.v and stores the resulting level-0
     chain.  This is exact as long as key_index and chain agree, i.e. as long as
-    no NaN score was ever stored in the key (DESIGN.md F-04a); the states after
-    a NaN (chain and index diverge) are modelled exactly only at the skip-list
-    level (SkipList.v + in-process tie).
+    no NaN score is stored - which, after the repairs beb3269 (NaN refused by
+    ZADD/ZINCRBY in handler and engine, all ZADD pairs validated first), 76804df
+    (rank-range normalisation) and 774140b (NaN bounds refused), is a theorem
+    about every history (Props/C04.v c04_history_inv).
 
     Score text <-> f64 is an oracle: [oracle] = [FArray l], l aligned with
     [parts]: l[i] = [FDouble bits] when parts[i] is a bulk string that
     `String::from_utf8_lossy(..).parse::<f64>()` accepts, [FNullBulk] otherwise;
     for ZINCRBY one more element: the bits of the new score the implementation
-    answered.  Score replies are [FDouble (f_canon bits)] (the harness re-parses
+    answered ([FNullBulk] when it answered an error).  Score replies are [FDouble (f_canon bits)] (the harness re-parses
     the reply text to bits).  No proofs here. *)
 From Ferrous Require Import Base.Bytes Model.Resp Model.Types Model.Strings Model.SkipList.
 Open Scope Z_scope.
-
-(** after patches/fix-zset-refuse-nan.diff is applied to /repo this becomes [true]:
-    ZADD validates every pair first (NaN refused, nothing added on refusal) and
-    ZINCRBY refuses a NaN increment or result.  The theorems of Props/C04.v are
-    proved for both values; the NaN and zadd-partial witnesses hold for [false] only. *)
-Definition nan_refused : bool := true.
-
-(** after patches/fix-zrangebyscore-refuse-nan-bound.diff is applied this becomes [true]:
-    ZRANGEBYSCORE / ZREVRANGEBYSCORE / ZCOUNT refuse NaN as a bound *)
-Definition nan_bound_refused : bool := true.
 
 Definition zset := list (bytes * Z).
 Definition z2sl (z : zset) : sl :=
@@ -36,20 +27,28 @@ Definition z2sl (z : zset) : sl :=
 Definition sl2z (s : sl) : zset := sl_items s.
 Definition is_none {A} (o : option A) : bool := match o with None => true | Some _ => false end.
 
-(** ---- engine.rs (None = Err(WrongType)); no function here consults expiry ---- *)
-Definition eng_zadd (d : db) (key m : bytes) (score : Z) : option (bool * db) :=
+(** ---- engine.rs; no function here consults expiry ---- *)
+(** Result of the updating engine functions: Err(WrongType), another Err (answered "ERR ..."), Ok *)
+Inductive eres (A : Type) := EOk (a : A) | EWrongType | EErr.
+Arguments EOk {A} a.
+Arguments EWrongType {A}.
+Arguments EErr {A}.
+
+(** zadd: NaN is refused before the key is looked at *)
+Definition eng_zadd (d : db) (key m : bytes) (score : Z) : eres (bool * db) :=
+  if f_is_nan score then EErr else
   match get_entry d key with
   | Some e =>
       match e_val e with
       | VZSet z =>
           match sl_insert (z2sl z) m score 0%nat with
-          | (old, s') => Some (is_none old, put_entry d key {| e_val := VZSet (sl2z s'); e_exp := e_exp e |})
+          | (old, s') => EOk (is_none old, put_entry d key {| e_val := VZSet (sl2z s'); e_exp := e_exp e |})
           end
-      | _ => None
+      | _ => EWrongType
       end
   | None =>
       match sl_insert sl_new m score 0%nat with
-      | (_, s') => Some (true, put_entry d key {| e_val := VZSet (sl2z s'); e_exp := None |})
+      | (_, s') => EOk (true, put_entry d key {| e_val := VZSet (sl2z s'); e_exp := None |})
       end
   end.
 
@@ -88,23 +87,9 @@ Definition eng_zrank (d : db) (key m : bytes) (reverse : bool) : option (option 
 Definition sat_sub (a b : Z) : Z := Z.max 0 (a - b).
 Definition nodes_kv (l : list node) : zset := map (fun n => (n_key n, n_val n)) l.
 
-(** after patches/fix-zrange-index-normalisation.diff is applied to /repo this becomes [true] *)
-Definition zrange_fixed : bool := true.
-
-(** zrange: start/stop are isize; the index translation of engine.rs:875-909 (unchanged tree) *)
-Definition zrange_of_v1 (s : sl) (start stop : Z) (reverse : bool) : zset :=
-  let ln := sl_len s in
-  if ln =? 0 then [] else
-  let start_idx := if start <? 0 then Z.max (ln + start) 0 else start in
-  let stop_idx := if stop <? 0 then Z.max (ln + stop) 0 else stop in
-  if reverse then
-    let real_start := sat_sub (sat_sub ln 1) (Z.min stop_idx (sat_sub ln 1)) in
-    let real_stop := sat_sub (sat_sub ln 1) (Z.min start_idx (sat_sub ln 1)) in
-    rev (nodes_kv (sl_range_by_rank s real_start real_stop))
-  else if (ln <=? start_idx) || (stop_idx <? start_idx) then []
-  else nodes_kv (sl_range_by_rank s (Z.min start_idx (ln - 1)) (Z.min stop_idx (ln - 1))).
-(** the repaired translation *)
-Definition zrange_of_v2 (s : sl) (start stop : Z) (reverse : bool) : zset :=
+(** zrange: start/stop are isize (engine.rs after 76804df): negative indices count from the
+    end, start is clamped to 0 and stop to len-1, empty when start > stop or start >= len *)
+Definition zrange_of (s : sl) (start stop : Z) (reverse : bool) : zset :=
   let ln := sl_len s in
   if ln =? 0 then [] else
   let start_i := Z.max (if start <? 0 then ln + start else start) 0 in
@@ -113,8 +98,6 @@ Definition zrange_of_v2 (s : sl) (start stop : Z) (reverse : bool) : zset :=
   let stop_idx := Z.min stop_i (ln - 1) in
   if reverse then rev (nodes_kv (sl_range_by_rank s (ln - 1 - stop_idx) (ln - 1 - start_i)))
   else nodes_kv (sl_range_by_rank s start_i stop_idx).
-Definition zrange_of (s : sl) (start stop : Z) (reverse : bool) : zset :=
-  if zrange_fixed then zrange_of_v2 s start stop reverse else zrange_of_v1 s start stop reverse.
 Definition eng_zrange (d : db) (key : bytes) (start stop : Z) (reverse : bool) : option zset :=
   with_zset d key [] (fun s => zrange_of s start stop reverse).
 
@@ -126,9 +109,12 @@ Definition eng_zcount (d : db) (key : bytes) (mn mx : Z) : option Z :=
   match eng_zrangebyscore d key mn mx false with Some l => Some (len l) | None => None end.
 Definition eng_zcard (d : db) (key : bytes) : option Z := with_zset d key 0 sl_len.
 
-(** zincrby: [sum] = the f64 sum `curr_score + increment` as the implementation
-    computed it (oracle), used only when the member exists *)
-Definition eng_zincrby (d : db) (key m : bytes) (inc : Z) (sum : option Z) : option (option Z * db) :=
+(** zincrby: [sum] = the f64 sum `curr_score + increment` as the implementation computed it
+    (oracle; None when it reported none, i.e. answered an error), used only when the member
+    exists.  A NaN increment is refused before the key is looked at, a NaN sum after the type
+    check and before anything is changed. *)
+Definition eng_zincrby (d : db) (key m : bytes) (inc : Z) (sum : option Z) : eres (Z * db) :=
+  if f_is_nan inc then EErr else
   match get_entry d key with
   | Some e =>
       match e_val e with
@@ -137,16 +123,17 @@ Definition eng_zincrby (d : db) (key m : bytes) (inc : Z) (sum : option Z) : opt
           let ns := match sl_get_score s m with Some _ => sum | None => Some inc end in
           match ns with
           | Some v =>
+              if f_is_nan v then EErr else
               match sl_insert s m v 0%nat with
-              | (_, s') => Some (Some v, put_entry d key {| e_val := VZSet (sl2z s'); e_exp := e_exp e |})
+              | (_, s') => EOk (v, put_entry d key {| e_val := VZSet (sl2z s'); e_exp := e_exp e |})
               end
-          | None => Some (None, d)
+          | None => EErr
           end
-      | _ => None
+      | _ => EWrongType
       end
   | None =>
       match sl_insert sl_new m inc 0%nat with
-      | (_, s') => Some (Some inc, put_entry d key {| e_val := VZSet (sl2z s'); e_exp := None |})
+      | (_, s') => EOk (inc, put_entry d key {| e_val := VZSet (sl2z s'); e_exp := None |})
       end
   end.
 
@@ -156,12 +143,12 @@ Definition oscore (oracle : option frame) (i : nat) : option Z :=
   | Some (FArray l) => match nth_error l i with Some (FDouble b) => Some b | _ => None end
   | _ => None
   end.
-(** a score bound: as [float_arg], NaN refused once repaired *)
+(** a score bound: parses and is not NaN (774140b) *)
 Definition bound_arg (parts : list frame) (oracle : option frame) (i : nat) : option Z :=
   match nth_error parts i with
   | Some (FBulk _) =>
       match oscore oracle i with
-      | Some b => if nan_bound_refused && f_is_nan b then None else Some b
+      | Some b => if f_is_nan b then None else Some b
       | None => None
       end
   | _ => None
@@ -183,29 +170,8 @@ Definition with_scores_opt (parts : list frame) : bool :=
   | _ => false
   end.
 
-(** the pair loop of handle_zadd: pairs are applied one at a time; a bad pair
-    answers an error and leaves the earlier pairs applied *)
-Fixpoint zadd_pairs (d : db) (key : bytes) (parts : list frame) (oracle : option frame)
-         (i : nat) (rest : list frame) (added : Z) : frame * db :=
-  match rest with
-  | sc :: mb :: rest' =>
-      match float_arg parts oracle i with
-      | None => (r_err, d)
-      | Some score =>
-          match mb with
-          | FBulk m =>
-              if nan_refused && f_is_nan score then (r_err, d) else
-              match eng_zadd d key m score with
-              | None => (r_wrongtype, d)
-              | Some (is_new, d') => zadd_pairs d' key parts oracle (S (S i)) rest' (if is_new then added + 1 else added)
-              end
-          | _ => (r_err, d)
-          end
-      end
-  | _ => (r_int added, d)
-  end.
-(** the validation pass of the repaired handler (patches/fix-zset-refuse-nan.diff):
-    every score parses and is not NaN, every member is a bulk string *)
+(** the validation pass of handle_zadd (beb3269): every score parses and is not NaN,
+    every member is a bulk string - before the first pair is applied *)
 Fixpoint zadd_valid (parts : list frame) (oracle : option frame) (i : nat) (rest : list frame) : bool :=
   match rest with
   | sc :: mb :: rest' =>
@@ -217,11 +183,27 @@ Fixpoint zadd_valid (parts : list frame) (oracle : option frame) (i : nat) (rest
       end
   | _ => true
   end.
+(** the application loop: `if self.storage.zadd(..)? { new_members += 1 }` per pair *)
+Fixpoint zadd_pairs (d : db) (key : bytes) (parts : list frame) (oracle : option frame)
+         (i : nat) (rest : list frame) (added : Z) : frame * db :=
+  match rest with
+  | sc :: mb :: rest' =>
+      match float_arg parts oracle i, mb with
+      | Some score, FBulk m =>
+          match eng_zadd d key m score with
+          | EWrongType => (r_wrongtype, d)
+          | EErr => (r_err, d)
+          | EOk (is_new, d') => zadd_pairs d' key parts oracle (S (S i)) rest' (if is_new then added + 1 else added)
+          end
+      | _, _ => (r_err, d)          (* unreachable after validation *)
+      end
+  | _ => (r_int added, d)
+  end.
 Definition h_zadd (d : db) (parts : list frame) (oracle : option frame) : frame * db :=
   if (nparts parts <? 4) || negb (nparts parts mod 2 =? 0) then (r_err, d) else
   match nth_error parts 1 with
   | Some (FBulk key) =>
-      if nan_refused && negb (zadd_valid parts oracle 2%nat (skipn 2 parts)) then (r_err, d)
+      if negb (zadd_valid parts oracle 2%nat (skipn 2 parts)) then (r_err, d)
       else zadd_pairs d key parts oracle 2%nat (skipn 2 parts) 0
   | _ => (r_err, d)
   end.
@@ -354,14 +336,10 @@ Definition h_zincrby (d : db) (parts : list frame) (oracle : option frame) : fra
           match nth_arg parts 3 with
           | None => (r_err, d)
           | Some m =>
-              if nan_refused && f_is_nan inc then (r_err, d) else
               match eng_zincrby d key m inc (oscore oracle 4) with
-              | None => (r_wrongtype, d)
-              | Some (Some v, d') =>
-                  if nan_refused && f_is_nan v then (r_err, d) else (r_score v, d')
-              | Some (None, d') =>
-                  (* no sum reported: the repaired implementation refused a NaN result *)
-                  if nan_refused then (r_err, d) else (FError (bs "NOORACLE"), d')
+              | EWrongType => (r_wrongtype, d)
+              | EErr => (r_err, d)
+              | EOk (v, d') => (r_score v, d')
               end
           end
       end
